@@ -467,7 +467,7 @@ func TestC45(t *testing.T) {
 	} else {
 		t.Cleanup(func() { os.RemoveAll(base) })
 	}
-	nCases := ev.N(8, 160)
+	nCases := ev.N(8, 120)
 	killPerCase := ev.Pick(3, 12)
 
 	var cases []c45Case
